@@ -413,9 +413,20 @@ def schedule_worker(shard: dict) -> dict:  # noqa: PLR0915
 
     acc = Acc()
     rnd = random.Random(shard["seed"])
+    # the fixed pool plus a few seeded random grammars
+    CALLS = dict(globals()["CALLS"])  # noqa: N806
+    texts: dict[str, str] = {}
+    for g in random_pool(shard["seed"], shard.get("random_grammars", 3)):
+        CALLS[g["gid"]] = [tuple(c) for c in g["calls"]]
+        texts[g["gid"]] = g["text"]
+        acc.count("schedule.random_grammars")
+
+    def build(gid, setting, kind):  # noqa: ANN001
+        return build_text(texts[gid], setting, kind) if gid in texts else globals()["build"](gid, setting, kind)
+
     shared = []
-    for _ in range(shard["objects"]):
-        gid = rnd.choice(list(CALLS))
+    for i in range(shard["objects"]):
+        gid = rnd.choice(list(texts)) if texts and i % 2 else rnd.choice(list(CALLS))
         setting = rnd.choice(SETTINGS)
         kind = rnd.choice(KINDS)
         shared.append((gid, setting, kind, build(gid, setting, kind)))
